@@ -13,6 +13,7 @@ def gen(rng, tier):
         g = common.genus(G); opt = rng.random() < 0.35 and g >= 1
         D = common.random_divisor(rng, G, band="low" if opt else None)
         if opt and not (0 <= sum(D) < g): opt = False
+        if rng.random() < 0.15: G, D = common.thin_cut_game(rng); g = common.genus(G); opt = opt and 0 <= sum(D) < g and g >= 1; fam = "thincut"
         if rng.random() < 0.08 and G["edges"]:
             G, D = common.scale_game(rng, G, D); fam = fam + "*2^k"; opt = opt and 0 <= sum(D) < common.genus(G)
         cases.append({"G": G, "D": D, "opt": opt, "fam": fam, "s": rng.randrange(1 << 30)})
